@@ -999,7 +999,12 @@ func checkC15(w *World, r *Report) {
 	r.check(okBlank, "C15.format", add, "blank line before the source", add.Pos(), "every return is preamble + line break + source", "some return of AddPreamble omits the blank separator line: the reader would take leading ';; $…' comment lines of the source for preamble")
 	// reader side
 	rprefix := ""
-	for _, b := range rwp.Blocks {
+	// the reader and the unexported functions of its package it is built from
+	var rwpBlocks []*ssa.BasicBlock
+	for _, f := range w.withPkgHelpers(rwp) {
+		rwpBlocks = append(rwpBlocks, f.Blocks...)
+	}
+	for _, b := range rwpBlocks {
 		for _, in := range b.Instrs {
 			if c, ok := in.(*ssa.Call); ok && isStringsFn(c, "HasPrefix") {
 				if s, ok := constString(c.Call.Args[1]); ok {
@@ -1011,7 +1016,7 @@ func checkC15(w *World, r *Report) {
 	r.check(rprefix == wprefix+"$", "C15.format", rwp, "prefix tested by the reader", rwp.Pos(), fmt.Sprintf("%q = writer prefix %q + '$'", rprefix, wprefix), fmt.Sprintf("the reader tests for %q but the writer emits %q followed by a name starting with '$'", rprefix, wprefix))
 	// key offset
 	okOff := false
-	for _, b := range rwp.Blocks {
+	for _, b := range rwpBlocks {
 		for _, in := range b.Instrs {
 			if sl, ok := in.(*ssa.Slice); ok && sl.High == nil && isStringVal(sl.X) {
 				if k, ok := sl.Low.(*ssa.Const); ok && k.Value != nil && k.Int64() == int64(len(wprefix)) {
@@ -1023,13 +1028,15 @@ func checkC15(w *World, r *Report) {
 	r.check(okOff, "C15.format", rwp, "key offset", rwp.Pos(), fmt.Sprintf("strips %d bytes, the writer's prefix", len(wprefix)), "the reader does not strip exactly the writer's prefix from the key")
 	// the pattern, evaluated on lines of the writer's shape
 	pat := ""
-	if g, ok := w.SPkg[modPath].Members["placeholderRE"].(*ssa.Global); ok {
-		initFn := g.Pkg.Func("init")
-		for _, b := range initFn.Blocks {
-			for _, in := range b.Instrs {
-				if st, ok := in.(*ssa.Store); ok && st.Addr == ssa.Value(g) {
-					if c, ok := st.Val.(*ssa.Call); ok && len(c.Call.Args) == 1 {
-						pat, _ = constString(c.Call.Args[0])
+	for _, b := range rwpBlocks {
+		for _, in := range b.Instrs {
+			// the pattern of the package-level regular expression the reader matches lines with
+			if c, ok := in.(*ssa.Call); ok && c.Call.StaticCallee() != nil && fnPkgPath(c.Call.StaticCallee()) == "regexp" && len(c.Call.Args) > 0 {
+				if ld, ok := c.Call.Args[0].(*ssa.UnOp); ok {
+					if g, ok := ld.X.(*ssa.Global); ok {
+						if p, ok := w.globalRegexPattern(g); ok {
+							pat = p
+						}
 					}
 				}
 			}
@@ -1196,6 +1203,13 @@ func containsCalls(cond ssa.Value, pol bool, e *Engine, b *ssa.BasicBlock) []*ss
 
 // dominatedByNotContainsLF: some dominating branch edge of b is the false edge of strings.Contains(s, "\n").
 func dominatedByNotContainsLF(fn *ssa.Function, b *ssa.BasicBlock) bool {
+	for _, a := range knownConds(b) {
+		if c, ok := a.v.(*ssa.Call); ok && isStringsFn(c, "Contains") && !a.pol {
+			if s, ok := constString(c.Call.Args[1]); ok && s == "\n" {
+				return true
+			}
+		}
+	}
 	for _, d := range fn.Blocks {
 		iff := blockIf(d)
 		if iff == nil {
